@@ -2,7 +2,7 @@
 from .. import nf, dims, bind
 from ..nf import Poly, Tup, Const, Slice, NONE, TRUE, FALSE
 from ..model import AnalysisError
-from ..rules import run as analyse, returns, fmt, is_app, S, C, pair, root_sym
+from ..rules import run as analyse, returns, fmt, is_app, S, C, pair, root_sym, none_state
 from .prop_flow import wf_attr, WF
 
 
@@ -40,20 +40,6 @@ def accepted_at_equality(cond, pol, fft_shape_atoms):
     raises = (inner != negated) == pol      # the raise path is taken when its condition holds
     raises = (inner if not negated else not inner) if pol else not (inner if not negated else not inner)
     return not raises
-
-
-def none_state(p, name):
-    """True / False when the path decided ``name is None`` / ``is not None``; None when it never tested it."""
-    for c, pol, _ in p.conds:
-        a = c.single_atom() if isinstance(c, Poly) else None
-        if a is not None and is_app(a, ('is', 'isnot', 'eq', 'ne')) and len(a[2]) == 2:
-            x, y = a[2]
-            none = (NONE, Poly.atom(('val', NONE)))
-            if y == S(name) and x in none:
-                x, y = y, x
-            if x == S(name) and y in none:
-                return pol if a[1] in ('is', 'eq') else (not pol)
-    return None
 
 
 def view_chain(v, loops):
